@@ -95,7 +95,7 @@ static void c06_gen_play_op(struct c06_op *op, int allow_heavy)
 		default: op->b = vrng_range(0, 10); break;
 		}
 	}
-	else if (k < 58) { op->kind = OP_INJECT; op->a = vrng_range(0, 3); op->b = vrng_range(1, 96); op->c = vrng_range(1, 4); op->d = vrng_range(0, 65); }
+	else if (k < 58) { op->kind = OP_INJECT; op->a = vrng_range(0, 3); op->b = vrng_range(1, 84); op->c = vrng_range(1, 4); op->d = vrng_range(0, 65); }
 	else if (k < 63) { op->kind = OP_SETPOS; op->a = vrng_range(0, 12); }
 	else if (k < 66) { op->kind = OP_NEXT; }
 	else if (k < 69) { op->kind = OP_PREV; }
@@ -108,7 +108,7 @@ static void c06_gen_play_op(struct c06_op *op, int allow_heavy)
 	else if (k < 90) { op->kind = OP_SCAN; }
 	else if (k < 93) { op->kind = OP_TEMPO; op->a = vrng_range(50, 200); }
 	else if (k < 96) { op->kind = OP_PLAYBUF; op->a = vrng_range(1, 6000); op->b = vrng_range(0, 2); }
-	else if (k < 98) { op->kind = OP_SMIXPLAY; op->a = vrng_range(0, 3); op->b = vrng_range(1, 96); op->c = vrng_range(0, 64); op->d = vrng_range(0, 3); }
+	else if (k < 98) { op->kind = OP_SMIXPLAY; op->a = vrng_range(0, 3); op->b = vrng_range(1, 84); op->c = vrng_range(0, 64); op->d = vrng_range(0, 3); }
 	else { op->kind = OP_GETINFO; }
 }
 
